@@ -1,11 +1,11 @@
 SPECIFICATION Spec
 CONSTANTS
-  Callers = {1, 2, 3}
+  Callers = {1, 2}
   Redispatch = TRUE
   StartStates = {"VIRGIN", "QUEUED", "INITIALIZING", "INCOMPLETE", "DOWNLOADING", "UPLOADING", "COMPLETE", "FAILED", "ABORTED", "PAUSED"}
   Dirs = {"up", "down"}
   Lst2Kinds = {"none"}
-  WithLoad = FALSE
+  WithLoad = TRUE
 INVARIANT TypeOK
 INVARIANT Mutex
 INVARIANT HolderInBody
@@ -14,4 +14,5 @@ PROPERTY Notified
 PROPERTY RefusalHasNoEffect
 PROPERTY RefusedOnlyIfNotAllowed
 PROPERTY FileOnlyRemovedByAbort
+PROPERTY LoadedIsSettled
 CHECK_DEADLOCK FALSE
